@@ -3,6 +3,7 @@ mod checks;
 mod crash;
 mod coord;
 mod corrupt;
+mod determinism;
 mod disk;
 mod gen;
 mod model;
